@@ -86,8 +86,11 @@ def run_batch(out, label, dictname, histories, spec="Trace_File", nshards=None, 
         out.distinct.add(core.script_hash(h))
     if len(out.samples) < 3:
         h = histories[len(histories) // 2]
-        out.samples.append({"batch": label, "dict": dictname, "ver": h.get("ver"),
-                            "ops": h["ops"][:12] if "ops" in h else {k: v for k, v in h.items() if k != "image"}})
+        # (a sample shows what was run, not all of it: whole layouts - 50,000 directory slots in one C05 case - stay out)
+        brief = h["ops"][:12] if "ops" in h else {k: v for k, v in h.items() if k not in ("image", "layout", "flip", "tree")}
+        if len(json.dumps(brief)) > 20000:
+            brief = json.dumps(brief)[:20000] + " ..."
+        out.samples.append({"batch": label, "dict": dictname, "ver": h.get("ver"), "ops": brief})
     out.parts.append({"batch": label, "histories": len(histories), "events": res["events"],
                       "wall_s": round(res["wall"], 1)})
     known = known or core.load_known()
